@@ -353,6 +353,8 @@ class Interp:
     # ---------------------------------------------------------------------------------------
     # equality
     # ---------------------------------------------------------------------------------------
+    _custom_eq_cache: dict = {}
+
     def eq(self, a, b):
         """Python `a == b` -> bool or Sym(bool)."""
         if not has_sym(a) and not has_sym(b):
@@ -368,6 +370,17 @@ class Interp:
         ty = ta if isinstance(a, (Sym, SymList)) else tb if isinstance(b, (Sym, SymList)) else (ta or tb)
         if ty is None:
             raise OutsideSubset(f"cannot compare {a!r} and {b!r}")
+        for t_ in (ta, tb):
+            if isinstance(t_, TData):
+                bad = self._custom_eq_cache.get(id(t_.family))
+                if bad is None:
+                    from .core import has_custom_eq
+
+                    bad = [c.__name__ for c in t_.family.classes if has_custom_eq(c)]
+                    self._custom_eq_cache[id(t_.family)] = bad
+                if bad:
+                    # == on these values runs hand-written code, not the structural equality of the datatype
+                    raise OutsideSubset(f"== on a family with a hand-written __eq__ ({', '.join(bad[:3])})")
         # class-strict dataclass equality: different families / kinds are simply unequal
         if ta is not None and tb is not None and not self._compatible(ta, tb):
             return False
